@@ -25,8 +25,23 @@ PROPS = {
 
 PROPS["C10"] = {
     "drivers": [COOKIE],
-    "rule": "",
-    "level_text": "wip", "level_note": "wip",
+    "rule": "save/clear histories (2-6 ops) in an RFC 6265 jar (net/http/cookiejar) over 9 cookie configurations (names of 1..256 bytes, "
+            "domains, paths, regex metacharacters in the name) with value sizes swept byte-by-byte around the first three split "
+            "thresholds; every Set-Cookie list and every load result is compared with the model; non-trivial = a save/clear/load "
+            "step of a history (all are); distinct = distinct model call",
+    "assumptions": ["HMAC-SHA256 modelled as a function (table of true MACs); AES-CFB/msgpack/lz4 are outside the compared core: the "
+                    "model works on the encrypted value, the driver's session-level round trips (oracle) cover the codec",
+                    "theorem c10_load_after_save is stated for requests that present exactly the cookies of the save (predicate "
+                    "`presents`); that a browser jar does so after any history is exercised by the jar histories of the correspondence"],
+    "trusted_base": ["net/http Cookie.String() serialisation is modelled (Model/Cookies.v) and compared byte for byte on every case",
+                     "net/http/cookiejar as the browser"],
+    "level_text": "c10_parts (parts concatenate to the signed value, each <= maxCookieLength <= 4096, numbered names), c10_split_progress, "
+                  "c10_load_after_save (for every config with a valid name, every non-empty value and every earlier cookie set, Save "
+                  "emits deletions ++ parts and a request presenting those parts loads exactly the saved value), c10_clear_complete "
+                  "are proved for all inputs of the Gallina model of pkg/sessions/cookie; the model's Save/Load/Clear are compared with "
+                  "the Go functions on save/clear histories through a real cookie jar on every run.",
+    "level_note": "Server-side (Redis) store part of C10 is covered by the ticket model under C02/C13; jar-level induction over histories is "
+                  "checked by correspondence, not by a theorem.",
 }
 
 NOT_APPLICABLE = {}
